@@ -124,18 +124,25 @@ func isLibKey(key string) bool {
 // sumSize: sumsize(s, k) = sum of proto.Size over the first k elements of the slice window.
 // Defined by recursion (two definitional axioms); the range fact is a consequence of psize <= 2^31 and k <= 2^31.
 func (tr *Tr) sumSize(st *State, et types.Type, s Sl, k string) string {
+	tr.sumSizeDecl()
+	h := tr.heapVar(st, elemPrefix(et), arr2(sortInt))
+	return "(|sumsz| " + sSel(h, s.Arr) + " " + s.Off + " " + k + ")"
+}
+
+func (tr *Tr) sumSizeDecl() {
 	if !tr.sc.declared["|sumsz|"] {
 		tr.sc.declare("|psize|", "(Int) Int")
 		tr.sc.declare("|sumsz|", "((Array Int Int) Int Int) Int")
 		tr.sc.fact("(forall ((a (Array Int Int)) (o Int) (k Int)) (! (=> (<= k 0) (= (|sumsz| a o k) 0)) :pattern ((|sumsz| a o k))))")
 		tr.sc.fact("(forall ((a (Array Int Int)) (o Int) (k Int)) (! (=> (> k 0) (= (|sumsz| a o k) (+ (|sumsz| a o (- k 1)) (|psize| (select a (+ o (- k 1))))))) :pattern ((|sumsz| a o k))))")
-		tr.sc.fact("(forall ((a (Array Int Int)) (o Int) (k Int)) (! (=> (and (<= 0 k) (<= k 2147483648)) (and (<= 0 (|sumsz| a o k)) (<= (|sumsz| a o k) 4611686018427387904))) :pattern ((|sumsz| a o k))))")
+		if !tr.lemmaProof {
+			// consequence of lemma sum_range (proved by the engine from the two definitional axioms alone), instantiated for k <= 2^31
+			tr.sc.fact("(forall ((a (Array Int Int)) (o Int) (k Int)) (! (=> (and (<= 0 k) (<= k 2147483648)) (and (<= 0 (|sumsz| a o k)) (<= (|sumsz| a o k) 4611686018427387904))) :pattern ((|sumsz| a o k))))")
+		}
 		tr.sc.fact("(forall ((e Int)) (! (and (<= 0 (|psize| e)) (<= (|psize| e) 2147483648)) :pattern ((|psize| e))))")
-		tr.assumptions["sumsize: recursive definition of the prefix sum of proto.Size; range consequence 0 <= sumsize(k) <= 2^62 for k <= 2^31 (derived from psize <= 2^31, not proved in SMT)"] = true
+		tr.assumptions["sumsize: recursive definition of the prefix sum of proto.Size (two definitional axioms); its range fact is lemma sum_range, proved by the engine"] = true
 		tr.assumptions["T-lib proto.Size: non-negative function of the message object, <= 2^31 per message"] = true
 	}
-	h := tr.heapVar(st, elemPrefix(et), arr2(sortInt))
-	return "(|sumsz| " + sSel(h, s.Arr) + " " + s.Off + " " + k + ")"
 }
 
 // arrayCountAxioms declares acntge(a, lo, hi, v) = #{p in [lo,hi) : a[p] >= v} and acntgt (strict) together with the
